@@ -62,6 +62,15 @@ def gen_ops(tier, rng):
                         size = rng.choice([64, 128] if leo else [1, 16, 33, 64, 100])
                         ops.append((f"frame {fam} {rng.choice(OPTSETS)} {d} {p} {size} {rng.randrange(1,1<<30)} rec {mode} {lst(E)} {lst(req)} {capm}",
                                     {"cat": "rec", "w": 1}))
+    # Split with more spare capacity than it needs: the caller's bytes behind the last returned shard keep their contents
+    for fam in ["default", "cauchy", "leo8", "leo16"]:
+        for (d, p) in [(2, 1), (4, 2), (5, 3), (10, 4), (1, 1)]:
+            for n in [1, 7, 100, 1000, 4097]:
+                q = 64 if fam.startswith("leo") else 1
+                per = ((n + d - 1) // d + q - 1) // q * q
+                need = per * (d + p) - n
+                for spare in [need + 1, need + 64, 2 * need + 3, need + 4096]:
+                    ops.append((f"split {fam} {d} {p} {n} {spare} {rng.randrange(1, 1<<30)}", {"cat": "split-spare", "w": 1}))
     for n in range(0, 21 if tier == "quick" else 41):
         for each in (list(range(0, 70)) + [100, 127, 128, 129, 200] if tier == "quick" else range(0, 201)):
             ops.append((f"allocchk {n} {each}", {"cat": "alloc", "w": 1 if n and each else 0}))
